@@ -408,6 +408,9 @@ func (l *log) delete(offsets map[int64]struct{}) ([]Message, int64, error) {
 	vhook.At("delete.found")
 
 	wasWriter := false
+	// what is in the log right now: a writing segment keeps growing while it is rewritten,
+	// and the end of the file might be only partly written at the time it is read
+	rewriteLimit := int64(-1)
 	l.writerMu.Lock()
 	if l.writer.reader == rdr {
 		wasWriter = true
@@ -415,6 +418,7 @@ func (l *log) delete(offsets map[int64]struct{}) ([]Message, int64, error) {
 			l.writerMu.Unlock()
 			return nil, 0, err
 		}
+		rewriteLimit = l.writer.messages.Size()
 	}
 	l.writerMu.Unlock()
 	vhook.At("delete.checked")
@@ -442,7 +446,7 @@ func (l *log) delete(offsets map[int64]struct{}) ([]Message, int64, error) {
 			mversion, iversion = message.V2, index.V2
 		}
 	}
-	rs, err := rdr.segment.Rewrite(offsets, l.params, mversion, iversion)
+	rs, err := rdr.segment.RewriteUpTo(rewriteLimit, offsets, l.params, mversion, iversion)
 	if err != nil {
 		return nil, 0, err
 	}
